@@ -33,6 +33,8 @@ N0LO = int(os.environ.get("C12_N0LO", "0"))
 NN = int(os.environ.get("C12_NN", "3"))
 ND = int(os.environ.get("C12_ND", "3"))
 N0HI = int(os.environ.get("C12_N0HI", str(NN)))
+M0LO = int(os.environ.get("C12_M0LO", "0"))
+M0HI = int(os.environ.get("C12_M0HI", "99"))
 NN1 = NN + 1 if NN == 3 else NN        # + the bytes alias
 NN2 = (NN + (2 if MODE == "c12" else 1)) if NN == 3 else NN   # + a bytes name (and, for C12, the empty string)
 PRETEXT = int(os.environ.get("C11_PRETEXT", "0"))
@@ -44,7 +46,9 @@ DESCS_BY_PRETEXT = [[None, "plain text", "été # : \"q\"", "# rule: other marke
 
 
 def reconfigure():
-    global MODE, OP0LO, OP0HI, N0LO, N0HI, PRETEXT, NN, ND, NN1, NN2
+    global MODE, OP0LO, OP0HI, N0LO, N0HI, PRETEXT, NN, ND, NN1, NN2, M0LO, M0HI
+    M0LO = int(os.environ.get("C12_M0LO", "0"))
+    M0HI = int(os.environ.get("C12_M0HI", "99"))
     NN = int(os.environ.get("C12_NN", "3"))
     NN1 = NN + 1 if NN == 3 else NN
     MODE = os.environ.get("C12_MODE", "c12")
@@ -254,7 +258,13 @@ def _history_body(info, ops):
             cd = P.decode(d, 4 if MODE == "c11" else 2)
         else:
             cd = 0
-        c2 = P.decode(n2, NN2) if (opn == "update" or (opn == "replace" and cd != 0)) else 0
+        if opn == "update" or (opn == "replace" and cd != 0):
+            if i == 0:
+                c2 = M0LO + P.decode(n2 - M0LO, min(M0HI, NN2) - M0LO)
+            else:
+                c2 = P.decode(n2, NN2)
+        else:
+            c2 = 0
         conc.update({"op%d" % i: co, "n%d" % i: c1, "m%d" % i: c2, "k%d" % i: ck, "d%d" % i: cd})
         info["concrete"] = dict(conc)
         for j in range(i + 1, len(ops)):
@@ -269,7 +279,7 @@ def _history_body(info, ops):
 
 def hist2(op0: int, n0: int, m0: int, k0: int, d0: int, op1: int, n1: int, m1: int, k1: int, d1: int) -> bool:
     """
-    pre: OP0LO <= op0 < OP0HI and N0LO <= n0 < N0HI and 0 <= m0 < NN2 and 0 <= k0 < ND and 0 <= d0 < 4
+    pre: OP0LO <= op0 < OP0HI and N0LO <= n0 < N0HI and M0LO <= m0 < min(M0HI, NN2) and 0 <= k0 < ND and 0 <= d0 < 4
     pre: 0 <= op1 < NOPS and 0 <= n1 < NN1 and 0 <= m1 < NN2 and 0 <= k1 < ND and 0 <= d1 < 4
     post: _
     """
@@ -279,7 +289,7 @@ def hist2(op0: int, n0: int, m0: int, k0: int, d0: int, op1: int, n1: int, m1: i
 def hist3(op0: int, n0: int, m0: int, k0: int, d0: int, op1: int, n1: int, m1: int, k1: int, d1: int,
           op2: int, n2: int, m2: int, k2: int, d2: int) -> bool:
     """
-    pre: OP0LO <= op0 < OP0HI and N0LO <= n0 < N0HI and 0 <= m0 < NN2 and 0 <= k0 < ND and 0 <= d0 < 4
+    pre: OP0LO <= op0 < OP0HI and N0LO <= n0 < N0HI and M0LO <= m0 < min(M0HI, NN2) and 0 <= k0 < ND and 0 <= d0 < 4
     pre: 0 <= op1 < NOPS and 0 <= n1 < NN1 and 0 <= m1 < NN2 and 0 <= k1 < ND and 0 <= d1 < 4
     pre: 0 <= op2 < NOPS and 0 <= n2 < NN1 and 0 <= m2 < NN2 and 0 <= k2 < ND and 0 <= d2 < 4
     post: _
@@ -290,7 +300,7 @@ def hist3(op0: int, n0: int, m0: int, k0: int, d0: int, op1: int, n1: int, m1: i
 def hist4(op0: int, n0: int, m0: int, k0: int, d0: int, op1: int, n1: int, m1: int, k1: int, d1: int,
           op2: int, n2: int, m2: int, k2: int, d2: int, op3: int, n3: int, m3: int, k3: int, d3: int) -> bool:
     """
-    pre: OP0LO <= op0 < OP0HI and N0LO <= n0 < N0HI and 0 <= m0 < NN2 and 0 <= k0 < ND and 0 <= d0 < 4
+    pre: OP0LO <= op0 < OP0HI and N0LO <= n0 < N0HI and M0LO <= m0 < min(M0HI, NN2) and 0 <= k0 < ND and 0 <= d0 < 4
     pre: 0 <= op1 < NOPS and 0 <= n1 < NN1 and 0 <= m1 < NN2 and 0 <= k1 < ND and 0 <= d1 < 4
     pre: 0 <= op2 < NOPS and 0 <= n2 < NN1 and 0 <= m2 < NN2 and 0 <= k2 < ND and 0 <= d2 < 4
     pre: 0 <= op3 < NOPS and 0 <= n3 < NN1 and 0 <= m3 < NN2 and 0 <= k3 < ND and 0 <= d3 < 4
